@@ -13,7 +13,7 @@ META = dict(
          "(clock >= stop); the MonoTimer model first shifts start and stop by a backward jump since the last look (or raises TimerRetroError) and then "
          "applies the operation.  Four more configurations keep two MonoTimers alive on the same clock (retro True/False x True/False, the second "
          "constructed at any point) and judge each against its own independent reference.  All times are dyadic, so float arithmetic is exact.",
-    note="The real clock is never read.  After an uncompensated MonoTimer raised, either keeping or advancing its 'latest' mark is accepted; return values "
+    note="The real clock is never read.  An uncompensated MonoTimer that raised is required to be unchanged (it keeps raising until the clock catches up); return values "
          "of restart/repeat/extend are not compared; extend(-x) is only applied while it keeps the duration non-negative.",
 )
 import collections
@@ -74,7 +74,7 @@ def look(kind, st):
     if d < 0:
         if KINDS[kind][0] == "MonoTimer(retro)":
             return [((start + d, stop + d, dur, clock, clock), False)]
-        return [(st, True), ((start, stop, dur, clock, clock), True)]      # raises; 'latest' kept or advanced: unspecified
+        return [(st, True)]      # raises and the failed look leaves the timer alone: it keeps raising until the clock has caught up
     return [((start, stop, dur, clock, clock), False)]
 
 
@@ -293,6 +293,8 @@ def explore(arg):
                 else:
                     facet = [n for n, a, b in zip(("start", "stop", "duration", "latest", "clock"), rs, s2) if a != b]
                     grp = "%s|%s differ" % (op[0], "+".join(facet))
+                    if outcome == "TimerRetroError":      # one group whatever the operation: it raised as it should but did not leave the timer alone
+                        grp = "TimerRetroError|the failed operation changed the timer (%s)" % "+".join(facet)
                     what = "after %s the timer is (start, stop, duration, latest, clock) = %r, model: %r" % (text, rs, s2)
                 complain(grp, h2, what, dict(op=text, got=got, got_state=rs, expected_state=s2, expected=outcome))
                 continue
@@ -449,6 +451,8 @@ def explore_pair(arg):
                     if others:       # one coarse group: whatever the operation, it reached into the other timer
                         grp = "cross-talk|%s changed by %s" % (others[0], "constructing timer b" if op[0] == "make_b"
                                                                  else "an operation on %s" % acted)
+                    elif outcome == "TimerRetroError":
+                        grp = "TimerRetroError|the failed operation changed the timer"
                     else:
                         grp = "%s|%s differ" % (opn, "+".join(which))
                     what = "after %s the timers are (a, b, clock) with each (start, stop, duration, latest) = %r, independent references: %r" % (text, rs, s2)
@@ -488,7 +492,10 @@ def run():
         "then applies the operation to the shifted start/stop",
         "two MonoTimers alive on one clock (all four retro combinations, the second constructed at any point of the history) are each held to their own "
         "single-timer reference: a timer's reads, restarts or construction must not change what another timer sees of a backward jump",
-        "after TimerRetroError the timer may keep or advance its 'latest' mark; extend(-x) only while duration stays >= 0; return values not compared",
+        "an uncompensated MonoTimer that raised TimerRetroError is unchanged by the failed operation (its 'latest' mark stays at the pre-jump reading), so "
+        "every further operation keeps raising while the clock is behind that reading and works again once it has caught up; a timer that raised once and then "
+        "carried on silently with a smaller elapsed would not be monotonic.  The BFS continues through such raises (they are ordinary transitions)",
+        "extend(-x) only while duration stays >= 0; return values not compared",
         "dedupe is on values relative to the clock (timer code is translation invariant) plus the flags start == 0.0, stop == 0.0, clock == 0.0 / None",
     ]
     return ck.finish(
